@@ -33,7 +33,8 @@ fn gen_pth(rng: &mut Rng, n: usize) -> Vec<u8> {
 }
 fn gen_smx(rng: &mut Rng, nobj: usize, ncp: usize, dirty: bool) -> Vec<u8> {
     let mut v = b"LFSSMX".to_vec(); let mut hd = rng.bytes(6); for h in hd.iter_mut() { if rng.chance(1, 2) { *h = *rng.pick(&[0u8, 1, 2, 3, 4, 255]); } } v.extend(hd); v.extend(if dirty { rng.bytes(4) } else { vec![0; 4] });   // header bytes (versions, dimensions, resolution): small values as likely as any
-    let tl = rng.below(33) as usize; let mut t = crate::layout::ascii_text(rng, tl); t.resize(32, 0); if dirty && tl < 30 { t[31] = b'x'; } v.extend(t);
+    // the track name is Latin-1 text: ASCII, or letters above 0xA0 - among them byte pairs that happen to be well-formed UTF-8 ("Ã©", "Â°")
+    let tl = rng.below(33) as usize; let mut t = crate::layout::ascii_text(rng, tl); if rng.chance(1, 3) { let mut i = 0; while i + 1 < t.len() { match rng.below(4) { 0 => { t[i] = 0xC3; t[i + 1] = 0xA9; i += 2; }, 1 => { t[i] = 0xC2; t[i + 1] = 0xB0; i += 2; }, 2 => { t[i] = 0xA0 + rng.below(0x60) as u8; i += 1; }, _ => { i += 1; } } } } t.resize(32, 0); if dirty && tl < 30 { t[31] = b'x'; } v.extend(t);
     v.extend(rng.bytes(3)); v.extend(if dirty { rng.bytes(9) } else { vec![0; 9] });
     v.extend((nobj as i32).to_le_bytes());
     for _ in 0..nobj {
